@@ -159,10 +159,20 @@ impl DmlExecutor {
         // Get the relation and allocate a new row ID. Reading the counter and storing the
         // incremented value must be one step: two inserters that both read the same value
         // would build the same table key and the second row would silently be dropped.
+        // A replayed row (recovery) names column 0 and carries its logged row id there; it keeps
+        // that id, which later log records refer to.
+        let replayed = columns
+            .iter()
+            .position(|&c| c == 0)
+            .filter(|&i| i < values.len())
+            .and_then(|i| match &values[i] {
+                DataType::BigUInt(id) => Some(UInt64::from(id.value())),
+                _ => None,
+            });
         let (relation, row_id) =
             self.ctx
                 .catalog()
-                .allocate_row_id(table_id, &tree_builder, &snapshot)?;
+                .allocate_row_id(table_id, replayed, &tree_builder, &snapshot)?;
 
         let schema = relation.schema().clone();
         let root = relation.root();
